@@ -201,7 +201,9 @@ func H_C19_IndirectPing() {
 // with its own sequence number is handled before the (awareness-scaled) probe interval ends.
 func H_C19_ProbeNode() {
 	conf := vBaseConfig()
-	conf.DisableTcpPings = true
+	// environment 4: only the TCP fallback gets through (UDP silent); otherwise TCP pings are off
+	env := vPick(5)
+	conf.DisableTcpPings = env != 4
 	conf.IndirectChecks = vPick(2)
 	conf.ProbeTimeout = 500 * time.Millisecond
 	conf.ProbeInterval = time.Second
@@ -224,9 +226,19 @@ func H_C19_ProbeNode() {
 	seq := m.sequenceNum + 1
 
 	// environment: what comes back, and when
-	env := vPick(4)
 	var at time.Duration
+	var tcp *vConn
 	switch env {
+	case 4:
+		// the target answers the stream ping after a symbolic delay (possibly too late)
+		reply := &vConn{}
+		abuf, _ := encode(ackRespMsg, &ackResp{SeqNo: seq}, false)
+		vAssert(m.rawSendMsgStream(reply, abuf.Bytes(), "") == nil, "c19.probe.mk-tcp-reply")
+		// (the fallback only starts once the direct ack has been missing for ProbeTimeout)
+		d := time.Duration(vRange(0, int(3*time.Second)))
+		tcp = &vConn{in: reply.out, delay: d}
+		f.tr.conn = tcp
+		at = conf.ProbeTimeout + d
 	case 0: // direct ack
 		at = time.Duration(vRange(0, int(3*time.Second)))
 		go func() { time.Sleep(at); m.invokeAckHandler(ackResp{SeqNo: seq}, time.Now()) }()
@@ -247,12 +259,22 @@ func H_C19_ProbeNode() {
 	vAdvance(4 * time.Second) // quiescence
 	vYield()
 
-	answered := env == 0 && at < interval
+	answered := (env == 0 || env == 4) && at < interval
 	vAssert(took <= interval, "c19.probe.returns-within-scaled-interval")
-	if env == 0 && at == interval {
+	if env == 4 && at < interval {
+		// answered over TCP only: the member stays, and the probe counts as a success for our own health
+		vAssert(target.State == StateAlive && len(f.ev.log) == 0, "c19.probe.tcp-answer-not-suspected")
+		want := score - 1
+		if want < 0 {
+			want = 0
+		}
+		vAssert(m.GetHealthScore() == want, "c19.probe.tcp-answer-improves-health")
+		vAssert(tcp.closed == 1, "c19.probe.tcp-conn-closed")
+		vCover("c19.probe.tcp")
+	} else if (env == 0 || env == 4) && at == interval {
 		// ack and deadline at the same instant: either order is a legal schedule
 		vCover("c19.probe.tie")
-	} else if answered {
+	} else if answered && env == 0 {
 		vAssert(target.State == StateAlive, "c19.probe.answered-not-suspected")
 		vAssert(len(f.ev.log) == 0, "c19.probe.answered-no-event")
 		if at < conf.ProbeTimeout {
